@@ -181,6 +181,28 @@ def emit(repo: str, out_path: str) -> dict:
     return {"all": ws, "bad": bad}
 
 
+def obligation(pid: str):
+    """For a property whose model treats validators as values: (generated file, trusted-base line,
+    regenerate function).  The generated lemma fails when a function on the validation path stores
+    into its validator, its input or module state - per-call scratch fields, memo tables, 'last used'
+    hints - which the model cannot express."""
+    root = os.path.dirname(os.path.dirname(os.path.dirname(os.path.abspath(__file__))))
+    rel = f"generated/Facts_effects_{pid}.v"
+    note = (f"fact translator harness/facts/effects.py (python ast) regenerates coq/{rel} from /repo on every run: "
+            "no function of the package stores into its validator object, its input or module state "
+            "(the model's validators are immutable values; histories, re-entrant and overlapping calls cannot matter)")
+
+    def regen():
+        try:
+            d = emit(os.environ.get("KV_REPO", "/repo"), os.path.join(root, "coq", rel))
+            if d["bad"]:
+                return True, "stores to the validator object / caller-owned / module state: " + "; ".join(key(w) for w in d["bad"][:4])
+            return True, ""
+        except Exception as e:  # noqa
+            return False, f"effects extractor failed: {e}"
+    return rel, note, regen
+
+
 if __name__ == "__main__":
     for w in extract(sys.argv[1] if len(sys.argv) > 1 else "/repo"):
         print(key(w))
